@@ -311,3 +311,49 @@ def equal_but_distinct_program(rng):
             calls.append({'op': 'newval', 'rid': 'z', 'sa': [cls, name, route, '0'], 'ia': [n], 'va': [enc_float(f)]})
             calls.append({'op': 'interp', 't': 'z', 'sa': [name, 'prop', '0'], 'ia': [NONE_I]})
     return {'calls': calls}
+
+
+def value_history_program(rng):
+    """The same (dtype, length, value) created again after an object holding it was changed in place: a value is
+    stored in a mutable object by some route (incl. plain property assignment onto a sized object), that object is
+    mutated, then the value is created afresh by other routes and read back.  Any memo that hands out shared storage
+    shows as a wrong second creation."""
+    calls = []
+    for _ in range(rng.randint(2, 4)):
+        kind = rng.random()
+        if kind < 0.6:
+            name = rng.choice(['uint', 'int', 'uintbe', 'intbe', 'uintle', 'intle', 'uintne', 'intne', 'u', 'i'])
+            n = rng.choice([8, 16, 24, 32]) if len(name) > 4 else rng.choice([1, 3, 7, 8, 12, 16, 31, 33, 64])
+            signed = name.startswith('i')
+            lo, hi = (-(1 << (n - 1)), (1 << (n - 1)) - 1) if signed else (0, (1 << n) - 1)
+            v = rng.choice([lo, hi, 0, 1, rng.randint(lo, hi), rng.randint(lo, hi)])
+            val = enc_int(v)
+        elif kind < 0.8:
+            name = rng.choice(['float', 'floatle', 'floatne', 'bfloat'])
+            n = 16 if name == 'bfloat' else rng.choice([16, 32, 64])
+            val = enc_float(rng.choice([0.0, 1.0, -1.5, 3.25, 65504.0, 1e-3, -2.0]))
+        else:
+            name = rng.choice(['hex', 'bin', 'oct'])
+            w = {'hex': 4, 'bin': 1, 'oct': 3}[name]
+            k = rng.randint(1, 6)
+            n = k * w
+            tag = {'hex': 4, 'oct': 5, 'bin': 6}[name]
+            val = [tag] + [rng.randrange(1 << w) for _ in range(k)]
+        routes = new_routes(name, n, val)
+        for round_ in range(rng.randint(2, 3)):
+            first = rng.choice([r for r in routes if r in ('prop_sized', 'prop', 'kw_len', 'pack', 'dtype_build', 'token')] or routes)
+            cls = rng.choice(MUTABLE) if first in ('prop', 'prop_sized') or rng.random() < 0.8 else rng.choice(CLASSES)
+            calls.append({'op': 'newval', 'rid': 'h', 'sa': [cls, name, first, '0'], 'ia': [n], 'va': [val], 'drop': ['*']})
+            if cls in MUTABLE:
+                calls.append(rng.choice([
+                    {'op': 'invert', 't': 'h', 'sa': ['none'], 'ia': []},
+                    {'op': 'append', 't': 'h', 'xs': [{'k': 'lit', 'kind': 'bin', 'v': [1, 0, 1]}]},
+                    {'op': 'set', 't': 'h', 'sa': ['none'], 'ia': [rng.randint(0, 1)]},
+                    {'op': 'reverse', 't': 'h', 'ia': [NONE_I, NONE_I]},
+                    {'op': 'delslice', 't': 'h', 'ia': [NONE_I, 1, NONE_I]},
+                ]))
+            second = rng.choice(routes)
+            cls2 = rng.choice(MUTABLE if second in ('prop', 'prop_sized') else CLASSES)
+            calls.append({'op': 'newval', 'rid': 'g', 'sa': [cls2, name, second, '0'], 'ia': [n], 'va': [val]})
+            calls.append({'op': 'interp', 't': 'g', 'sa': [name, 'prop', '0'], 'ia': [NONE_I]})
+    return {'calls': calls}
